@@ -71,13 +71,13 @@ def run(rep, tier, seed, replay, proof_ok, proof_msg):
     configs = corefam.ALL_CONFIGS
     s2 = seed + 7919
     if not replay:
-        b_seq, _ = core.build_harnesses(configs, omp=True)
+        b_seq, _ = core.build_harnesses(configs, omp=True, starpu=True)
         sweep("sequential", C01.gen_cases("quick", s2, sorted(b_seq), n=120 * scale, tag="C15a"), b_seq)
         sweep("openmp-schedules", C03.gen_cases("quick", s2, sorted(b_seq))[:60 * scale], b_seq)
         sweep("staged-flags", C12.gen_cases("quick", s2, sorted(b_seq))[:40 * scale], b_seq)
         sweep("lookup", C16.gen_cases("quick", s2, sorted(b_seq))[:60 * scale], b_seq)
         sweep("index-api", [c for c in C11.gen_cases("quick", s2, sorted(b_seq)) if "rnd" in c["name"]][:80 * scale], b_seq)
-        b_tsm, _ = tsm.build(configs)
+        b_tsm, _ = tsm.build(configs, starpu=True)
         sweep("target-source", C09.gen_cases("quick", s2, sorted(b_tsm))[:80 * scale], b_tsm)
         b_per, _ = core.build_harnesses([(1, 1), (2, 1), (3, 1), (4, 1)], omp=True, wide=True)
         sweep("periodic-top-tree", C10.gen_cases("quick", s2, sorted(b_per))[:60 * scale], b_per)
